@@ -832,6 +832,9 @@ func (env *SpecEnv) evalCall(e *SExpr) *Value {
 			return &Value{K: VScalar, SpecKind: m.SpecKind, T: m.T, S: Store(m.S, k.S, v.S), Len: m.Len}
 		case "int":
 			return scalar(arg(0).S, ti)
+		case "decimal":
+			// decimal(n): the text fmt.Sprintf("%d", n) produces
+			return scalar(mkUF("fmt.decimal", SString, arg(0).S), types.Typ[types.String])
 		}
 		// predicate / uninterpreted function
 		if env.pkg != nil {
@@ -1043,6 +1046,15 @@ func (env *SpecEnv) evalModLoc(e *SExpr) []modLoc {
 				return out
 			}
 		}
+		nmatch := 0
+		for k := range env.reg.gvars {
+			if strings.HasSuffix(k, "."+e.Name) {
+				nmatch++
+			}
+		}
+		if nmatch > 1 {
+			specFail("ghost variable %q of another package is ambiguous among the loaded packages: name it with allof(\"ghost:<pkgpath>.%s\")", e.Name, e.Name)
+		}
 		for k, g := range env.reg.gvars {
 			if strings.HasSuffix(k, "."+e.Name) {
 				var out []modLoc
@@ -1090,7 +1102,20 @@ func (env *SpecEnv) evalModLoc(e *SExpr) []modLoc {
 			case "allof":
 				// allof("class") : a whole heap class by name (escape hatch, e.g. all fields of fresh objects)
 				if e.Args[0].Kind == SStrLit {
-					return []modLoc{{class: e.Args[0].Name, all: true}}
+					cn := e.Args[0].Name
+					if strings.HasPrefix(cn, "ghost:") {
+						// a ghost variable of another package named in full: a global class, its sort is the declared one
+						if g, ok := env.reg.gvars[strings.TrimPrefix(cn, "ghost:")]; ok {
+							var out []modLoc
+							env.reg.specValue(nil, g.SType, func(path string, s *Sort) *Term {
+								noteClass(cn+path, s, true)
+								out = append(out, modLoc{class: cn + path})
+								return zeroTerm(s)
+							})
+							return out
+						}
+					}
+					return []modLoc{{class: cn, all: true}}
 				}
 			}
 		}
